@@ -309,11 +309,12 @@ def clientPre (cfg : Config) (clients : List ClientReg) (formId : String) (w : W
             | .str jti => if jti = "" then .error .invalid_client else .ok ⟨c, k, j, jti⟩
             | _ => .error .invalid_client
 
-/-- the `switch exp := claims["exp"].(type)` between the two storage calls -/
+/-- the `switch exp := claims["exp"].(type)` between the two storage calls, and the `expiry <= 0`
+    refusal behind it (repair 72d22c6: `Valid()` reads a zero `exp` as an absent claim) -/
 def clientExpiry (c : Claims) : Except Err Int :=
   match c.exp with
-  | .flt t => .ok t
-  | .int i => .ok i
+  | .flt t => if t ≤ 0 then .error .invalid_client else .ok t
+  | .int i => if i ≤ 0 then .error .invalid_client else .ok i
   | _ => .error .invalid_client
 
 /-- after `SetClientAssertionJWT`: the audience check, then `return client` -/
@@ -332,7 +333,8 @@ def clientAssertionAuth (cfg : Config) (clients : List ClientReg) (formId : Stri
       match clientExpiry t.jws.claims with
       | .error e => (.err e, st)
       | .ok expiry =>
-        match jtiSet st t.jti (expiry * second) now with                -- SetClientAssertionJWT(jti, time.Unix(expiry, 0))
+        -- SetClientAssertionJWT(jti, time.Unix(expiry+1, 0)): the whole second `exp` is still accepted (repair b819172)
+        match jtiSet st t.jti ((expiry + 1) * second) now with
         | (true, st') => (.err .jti_known, st')
         | (false, st') => (clientFin cfg t, st')
 
@@ -578,7 +580,7 @@ def clientProto (cfg : Config) (clients : List ClientReg) (formId : String) (w :
   | .ok t =>
     match clientExpiry t.jws.claims with
     | .error e => ⟨none, true, t.jti, some e, 0, .jti_known, .err e⟩
-    | .ok x => ⟨none, true, t.jti, none, x * second, .jti_known, clientFin cfg t⟩
+    | .ok x => ⟨none, true, t.jti, none, (x + 1) * second, .jti_known, clientFin cfg t⟩
 
 def bearerProto (cfg : BearerConfig) (strat : List String → String → Bool) (keys : List IssuerKey)
     (w : Wire) (requested : List String) (now : Int) : Proto :=
